@@ -97,7 +97,7 @@ pub const PRIMS: &[&str] = &["I", "J", "Z", "B", "C", "S", "F", "D"];
 pub const SURROGATE_IDENT: &[&str] = &["x\u{E000}", "\u{E001}y", "a\u{E000}b\u{E001}"];
 pub const DOC_LINES: &[&str] = &[
 	"hello", "a comment", "", " leading space", "trailing ", "# hash", "with  two spaces", "ünï cödé", "x", "@param a thing", "<p>html</p>", "COMMENT inside",
-	"  ", "a # b",
+	"  ", "a # b", "distance en\u{a0}km\u{a0}: 5", "wide\u{3000}space and thin\u{2009}space",
 ];
 pub const HOSTILE_DOC_LINES: &[&str] = &["back\\slash", "lit\\n", "tab\there", "\\", "ends with cr\r", "\\t", "\\\\n"];
 /// backslashes in front of the letters escape notations use, and at the end of a line - but no control characters, so
